@@ -98,7 +98,7 @@ TABLE = {
                       "symbols declared in the inner loop body")],
     },
     ("ChunkLoopTrans", "validate"): {
-        "raises": 10,
+        "raises": 11,
         "consults": [("super().validate(", "the generic loop validation"),
                      ("node.loop_body.walk(", "scanning the loop body"),
                      (".is_written()", "checking that the loop bounds are "
